@@ -273,19 +273,35 @@ func newSocksWorld(seed int64) *socksWorld {
 			go func(c net.Conn) {
 				defer c.Close()
 				buf := make([]byte, 4096)
+				var held []byte
 				for {
 					c.SetReadDeadline(time.Now().Add(2 * time.Second))
 					if _, err := c.Read(buf); err != nil {
 						return
 					}
-					select {
-					case rep := <-w.reply:
-						if rep == nil {
+					rep := held
+					held = nil
+					if rep == nil {
+						select {
+						case rep = <-w.reply:
+						case <-time.After(time.Second):
 							return
 						}
-						c.Write(rep)
-					case <-time.After(time.Second):
+					}
+					if rep == nil {
 						return
+					}
+					c.Write(rep)
+					// when nothing is to follow, the connection goes away shortly after the last answer (not only at the
+					// next read, which may never come)
+					select {
+					case nx := <-w.reply:
+						if nx == nil {
+							time.Sleep(15 * time.Millisecond)
+							return
+						}
+						held = nx
+					default:
 					}
 				}
 			}(c)
@@ -499,6 +515,37 @@ func (w *socksWorld) run(u *sunit) (note string) {
 		if s := finish(cli, done); s != "" {
 			note += "; " + s
 		}
+	case "egress-udp-churn":
+		// many short-lived UDP associations through the egress proxy, each torn down from all sides at once: the relay loop's
+		// goroutines fail at the same moment with errors of different kinds
+		semit(e)
+		n := 0
+		for i := 0; i < 300; i++ {
+			for len(w.reply) > 0 {
+				<-w.reply
+			}
+			hp := w.hostileU.LocalAddr().(*net.UDPAddr).Port
+			w.reply <- []byte{5, 0}
+			// success, followed on the control connection by a byte nobody asked for: the relay's monitor takes any traffic there
+			// as the end of the association and closes both data paths at once
+			w.reply <- []byte{5, 0, 0, 1, 127, 0, 0, 1, byte(hp >> 8), byte(hp), byte(i)}
+			w.reply <- nil
+			cli, done := w.serve(w.egress)
+			go func() {
+				cli.Write([]byte{5, 1, 0})
+				time.Sleep(5 * time.Millisecond)
+				cli.Write([]byte{5, 3, 0, 1, 0, 0, 0, 0, 0, 0})
+			}()
+			rep := readSome(cli, 60*time.Millisecond)
+			if len(rep) >= 12 {
+				n++
+				tun := apicommon.NewPacketOverStreamTunnel(cli)
+				go tun.Write(append([]byte{0, 0, 0, 1, 127, 0, 0, 1, byte(sinkPort >> 8), byte(sinkPort)}, []byte("churn")...))
+				time.Sleep(time.Duration(i%4) * time.Millisecond)
+			}
+			finish(cli, done)
+		}
+		note = fmt.Sprintf("associations established: %d of 300", n)
 	case "proxy-to-client", "egress-to-server":
 		// the real endpoint talks to the hostile TCP endpoint and has to digest what it answers
 		semit(e)
